@@ -6,8 +6,9 @@ import Qryn.TraceQL.Planner
     The attribute index (`tempo_traces_attrs_gin`) holds one row per (span, attribute): the span's trace
     and span id, the attribute key and value (the span name under the key `name`), and the span's start
     time and duration. RE2, number parsing and Float64 aggregation are the oracles of `Sql.Sem`/`Sql.SemG`.
-    The boolean structure of a selector is read off the AST as the parser builds it (right-nested,
-    `a && b || c` is `a && (b || c)`; two conditions without an operator are a disjunction). -/
+    The boolean structure of a selector is the TraceQL reading of the chain of conditions as written
+    (`a && b || c` is `(a && b) || c` although the parser nests it to the right; two conditions without an
+    operator are a disjunction). -/
 namespace Qryn.TraceQL
 open Qryn Qryn.Sql
 
@@ -19,18 +20,37 @@ structure AttrRow where
   spanId : Bytes
   ts : Int          -- timestamp_ns of the span
   dur : Int         -- duration of the span, ns
+  /-- computed columns a statement may name as raw text — the portion filter of complex requests names
+      `cityHash64(trace_id) % N` and `unhex('<id>')` (`TraceDb.withPortionCols`); no condition of a query reads them -/
+  extra : List (String × Val) := []
+deriving Repr, DecidableEq
+
+/-- one row of the span table (`tempo_traces`): the columns the search statement reads -/
+structure SpanRow where
+  traceId : Bytes
+  spanId : Bytes
+  ts : Int          -- timestamp_ns
+  dur : Int         -- duration_ns
 deriving Repr, DecidableEq
 
 structure TraceDb where
   attrs : List AttrRow
+  spansT : List SpanRow := []
 deriving Repr
 
 def AttrRow.row (a : AttrRow) : Row :=
   [("date", .str a.date), ("key", .str a.key), ("val", .str a.val), ("trace_id", .str a.traceId),
-   ("span_id", .str a.spanId), ("timestamp_ns", .int a.ts), ("duration", .int a.dur)]
+   ("span_id", .str a.spanId), ("timestamp_ns", .int a.ts), ("duration", .int a.dur)] ++ a.extra
 
-/-- the SQL view of the database under the table names of the planner context -/
-def TraceDb.toDb (d : TraceDb) (c : Ctx) : Db := fun n => if n = c.attrsTable then d.attrs.map AttrRow.row else []
+def SpanRow.row (s : SpanRow) : Row :=
+  [("trace_id", .str s.traceId), ("span_id", .str s.spanId), ("timestamp_ns", .int s.ts), ("duration_ns", .int s.dur)]
+
+/-- the SQL view of the database under the table names of the planner context (a distributed table shows the
+    same rows as the local one) -/
+def TraceDb.toDb (d : TraceDb) (c : Ctx) : Db := fun n =>
+  if n = c.attrsTable ∨ n = c.attrsDistTable then d.attrs.map AttrRow.row
+  else if n = c.tracesTable ∨ n = c.tracesDistTable then d.spansT.map SpanRow.row
+  else []
 
 abbrev SpanKey := Bytes × Bytes      -- (trace id, span id)
 
@@ -95,12 +115,20 @@ def bop : BoolOp → Bool → Bool → Bool
   | .and, a, b => a && b
   | _, a, b => a || b
 
-/-- the boolean combination as written -/
-def expHolds (f : Term → Bool) : AttrExp → Bool
-  | .leaf t => f t
-  | .paren e => expHolds f e
-  | .leafOp t op tail => bop op (f t) (expHolds f tail)
-  | .parenOp e op tail => bop op (expHolds f e) (expHolds f tail)
+/-- a disjunction of conjunctions -/
+def holdsG (gs : List (List Bool)) : Bool := gs.any (fun g => g.all id)
+
+/-- the chain `h₁ op₁ h₂ op₂ …` (the grammar nests it to the right) as TraceQL reads it: `&&` binds tighter than
+    `||` — the truth values of the heads, in groups of `&&`-joined neighbours (an empty operator between two
+    conditions separates like `||`) -/
+def expGroups (f : Term → Bool) : AttrExp → List (List Bool)
+  | .leaf t => [[f t]]
+  | .paren e => [[holdsG (expGroups f e)]]
+  | .leafOp t op tail => consHead (f t) op (expGroups f tail)
+  | .parenOp e op tail => consHead (holdsG (expGroups f e)) op (expGroups f tail)
+
+/-- the boolean combination a selector denotes: some group of the chain has all its heads true -/
+def expHolds (f : Term → Bool) (e : AttrExp) : Bool := holdsG (expGroups f e)
 
 /-- the conditions written in a selector, left to right -/
 def termsOf : AttrExp → List Term
@@ -175,10 +203,10 @@ def selMatches (o : Oracles) (ao : AggOracles) (c : Ctx) (d : TraceDb) (s : Sele
      | none => true
      | some a => (match aggCmpText a with | .ok lit => aggHolds o ao c d a lit sps | .error _ => false))
 
-/-- the fragment of selectors the correctness theorem covers: conditions present, at most 64 distinct ones
-    (one bit each), distinct conditions have distinct texts -/
+/-- the fragment of selectors the correctness theorem covers: conditions present, distinct conditions have
+    distinct texts (that there are at most 64 distinct ones follows from the planner accepting the selector) -/
 structure SelOk (s : Selector) : Prop where
-  attrs : ∃ e, s.attrs = some e ∧ KeyInj (termsOf e) ∧ (analyzeCond [] e).1.length ≤ 64
+  attrs : ∃ e, s.attrs = some e ∧ KeyInj (termsOf e)
 
 /-! ### scripts: `&&` binds tighter than `||` -/
 def groups : Script → List (List Selector)
